@@ -167,8 +167,10 @@ Section Aligned.
     - apply x_ok_with_status. now apply x_ok_emit.
     - cbn [op_read line_ops]. unfold line_read. rewrite Hnl.
       pose proof (line_read_pops raw (x_in x)) as Hp.
-      destruct (line_read_nl raw (x_in x)) as [[[cs f] r] n]. cbn [fst].
-      destruct Hx as [H1 H2]. split; [|exact H2]. cbn. eapply pops_trans; eassumption.
+      destruct (line_read_nl raw (x_in x)) as [[[cs f] r] n].
+      destruct Hx as [H1 H2].
+      destruct (existsb (fun c => N.eqb (fst c) 0) cs); cbn [fst];
+        (split; [|exact H2]); cbn; eapply pops_trans; eassumption.
     - cbn [op_slurp line_ops]. pose proof (line_slurp_pops (x_in x)) as Hp.
       destruct (line_slurp (x_in x)) as [[ct r] n]. cbn [fst].
       pose proof (x_ok_emit 2 [ct] x Hx) as [H1 H2]. destruct Hx as [G1 G2].
@@ -400,7 +402,8 @@ Section Lengths.
   Proof.
     induction c; intros x Hwf; cbn [exec]; try (cbn; split; [exact Hwf | lia]).
     - cbn [op_read line_ops]. pose proof (line_read_wf raw d (x_in x) Hwf) as Hp.
-      destruct (line_read raw d (x_in x)) as [[[cs f] r] n]. exact Hp.
+      destruct (line_read raw d (x_in x)) as [[[cs f] r] n].
+      destruct (existsb (fun c => N.eqb (fst c) 0) cs); exact Hp.
     - cbn [op_slurp line_ops]. unfold line_slurp. cbn. split; [apply wf_nil | lia].
     - destruct n; cbn; (split; [exact Hwf | lia]).
     - destruct (IHc1 x Hwf) as [H1 L1]. destruct (exec line_ops c1 x) as [x1 e]. cbn [fst] in *.
@@ -430,7 +433,8 @@ Section Lengths.
       try (exists 0; apply pops_refl).
     - cbn [op_read line_ops]. unfold line_read. rewrite Hnl.
       pose proof (line_read_pops raw (x_in x)) as Hp.
-      destruct (line_read_nl raw (x_in x)) as [[[cs f] r] n]. exists n. exact Hp.
+      destruct (line_read_nl raw (x_in x)) as [[[cs f] r] n]. exists n.
+      destruct (existsb (fun c => N.eqb (fst c) 0) cs); exact Hp.
     - cbn [op_slurp line_ops]. pose proof (line_slurp_pops (x_in x)) as Hp.
       destruct (line_slurp (x_in x)) as [[ct r] n]. exists n. exact Hp.
     - destruct n; exists 0; apply pops_refl.
@@ -594,8 +598,14 @@ Section Swap.
       pose proof (read_swap raw _ _ H4) as Hr.
       destruct (line_read_nl raw (x_in x)) as [[[c1 f1] j1] n1].
       destruct (line_read_nl raw (x_in x')) as [[[c2 f2] j2] n2].
-      cbn [x_in fst snd]. intros Hk. destruct (Hr Hk) as [-> [-> [-> Hj]]]. rewrite H1, H2, H3.
-      split; [|reflexivity]. repeat split; assumption.
+      assert (Hin : forall b : bool, x_in (fst (if b then
+                 (mkX (mkSh (s_ps (x_sh x)) (s_vars (x_sh x)) 3) j1 (x_off x + n1) (x_evs x), false)
+               else (mkX (mkSh (s_ps (x_sh x)) (set_var v (read_value c1) (s_vars (x_sh x)))
+                               (if f1 then 0 else 1)) j1 (x_off x + n1) (x_evs x), false))) = j1)
+        by (intros []; reflexivity).
+      rewrite Hin. intros Hk. destruct (Hr Hk) as [-> [-> [-> Hj]]]. rewrite H1, H2, H3.
+      destruct (existsb (fun c => N.eqb (fst c) 0) c2);
+        (split; [|reflexivity]); repeat split; assumption.
     - cbn [op_slurp line_ops]. unfold line_slurp. cbn [x_in with_status fst].
       intros Hk. exfalso. unfold keeps in Hk. cbn in Hk. pose proof LB_pos. lia.
     - intros _. split; [|reflexivity]. apply SX_with_status. now apply SX_emit.
